@@ -209,6 +209,14 @@ asn_encode_to_new_buffer(const asn_codec_ctx_t *opt_codec_ctx,
                || (size_t)res.result.encoded == buf_key.computed_size);
     }
 
+    if(res.result.encoded < 0 && buf_key.buffer) {
+        /* On failure (.buffer) is NULL, as asn_application.h promises. */
+        int saved_errno = errno;
+        FREEMEM(buf_key.buffer);
+        buf_key.buffer = 0;
+        errno = saved_errno;
+    }
+
     res.buffer = buf_key.buffer;
 
     /* 0-terminate just in case. */
